@@ -1121,7 +1121,16 @@ class Interp:
         n_term, item_of = self.models.symbolic_iter(self, it)
         k = z3.Int(self.st.fresh_name('ck'))
         self.assign(g.target, item_of(SV(k, 'int')), cenv)
-        v = self.eval_nofork(n.elt, cenv)
+        self.comp_index = k
+        try:
+            self.st.solver.push()
+            self.st.solver.add(k >= 0, k < n_term)
+            try:
+                v = self.eval_nofork(n.elt, cenv)
+            finally:
+                self.st.solver.pop()
+        finally:
+            self.comp_index = None
         if v is None or numkind(v) is None:
             raise Unsupported('comprehension body over symbolic sequence is not a pure scalar map')
         ek = 'int' if numkind(v) in ('int',) else 'real'
